@@ -68,6 +68,9 @@ type Input struct {
 	// Pre (ab / exec): blocks verified first on the SAME worker pool (and processor); their verdicts are not part of
 	// the case: the pool carries no state from one job to the next, so the verdict on Items must not depend on them.
 	Pre [][]Item `json:"pre,omitempty"`
+	// Repeat (exec): the SAME ExecutionBlock object is executed this many times (snow may call Verify again on a
+	// block it already tried); the case reports the LAST verdict, which must not depend on earlier attempts.
+	Repeat int `json:"repeat,omitempty"`
 }
 
 type mirror struct {
@@ -405,7 +408,12 @@ func runExec(in Input) (m mirror, err error) {
 		for _, pb := range preBlks {
 			_, _ = p.Execute(ctx, db, chain.NewExecutionBlock(pb), false)
 		}
-		_, err := p.Execute(ctx, db, chain.NewExecutionBlock(blk), false)
+		eb := chain.NewExecutionBlock(blk)
+		_, err := p.Execute(ctx, db, eb, false)
+		for i := 1; i < in.Repeat; i++ {
+			time.Sleep(3 * time.Millisecond) // let completion callbacks of the previous attempt run
+			_, err = p.Execute(ctx, db, eb, false)
+		}
 		w.Stop()
 		ch <- err
 	}()
@@ -521,6 +529,9 @@ func run(in Input) emit.Case {
 	}
 	if len(in.Pre) > 0 {
 		kind += "/reused-pool"
+	}
+	if in.Repeat > 1 {
+		kind += "/re-executed"
 	}
 	return emit.Case{Coq: coq, JSON: m, Nontrivial: len(in.Items) >= 1, Kind: kind, Sig: sig}
 }
@@ -642,6 +653,9 @@ func gen(r *rand.Rand, i int) Input {
 			n = min(n, 20)
 		}
 		in.Items = genItems(r, n, mix, batchSize(n, max(1, in.Cores)))
+	}
+	if in.Layer == "exec" && r.Intn(3) == 0 {
+		in.Repeat = 2 + r.Intn(2)
 	}
 	if in.Layer != "ed" && r.Intn(3) == 0 {
 		// the same pool first verifies one or two other blocks, at least one of them with an invalid signature
